@@ -39,9 +39,13 @@ Definition dec_eqb (a b : Z * option Z) : bool :=
 '''
 
 
-def run(ctx):
+def gen(ctx):
     ctx.generate('RetryConsts.v', lambda: py2coq.emit_consts(ctx_repo(), retry_consts.items()))
     ctx.generate('RetryPolicies.v', lambda: py2coq.Translator(ctx_repo(), retry.fns()).emit())
+
+
+def run(ctx):
+    gen(ctx)
     ok = ctx.prove('Props/C23.v')
     if ctx.tier == 'thorough' and ok:
         ctx.coqchk('Props/C23.v')
